@@ -396,7 +396,7 @@ static void build(vf::Plan &plan, const vf::Opts &o)
         "C-string arguments denote the bytes up to their first NUL; separators/patterns containing NUL are exercised through the ST::string overloads only (DESIGN.md section 10)",
         "split(char) is only called with 0x01..0x7F (documented contract assertion)",
         "an empty separator / pattern must leave the text whole: split -> [text], replace -> text",
-        "subjects longer than the sequence bound are covered by the complete {a,','}^n sweep around the small-string limit only"};
+        "subjects longer than the sequence bound are covered by the complete {a,','}^n sweep around the small-string limit and by periodic contents of every length up to the stated bound"};
 
     const std::string SA("abA,\0", 5);
     const std::string RA("ab,", 3);
@@ -485,6 +485,40 @@ static void build(vf::Plan &plan, const vf::Opts &o)
                               },
                               [lens, seg](uint64_t idx) { return strf("s=%s", vf::vis(binary_subject(*seg, *lens, idx)).c_str()); });
         st.case_timeout_s = 3;
+    }
+
+    // ---- very long subjects: every length up to the bound (results cross the 256-byte stack buffer of the stream the
+    //      pieces / replacement are assembled in, and every later doubling), periodic content
+    {
+        static const char *const PERIOD[] = {"a,", "aa,", "a,,b", ",ab"};
+        static const char *const VSEPS[] = {",", ",,", "a,"};
+        static const char *const VTOS[] = {"", "bb", "b,b"};
+        const unsigned NMAXLEN = T ? 4200 : 1100;
+        auto mk = [](uint64_t idx) {
+            unsigned pi = (unsigned)vf::take(idx, 4);
+            size_t n = (size_t)idx, pl = strlen(PERIOD[pi]);
+            std::string s(n, 'a');
+            for (size_t k = 0; k < n; ++k) s[k] = PERIOD[pi][k % pl];
+            return s;
+        };
+        auto &st = plan.stage(strf("very-long:4 periodic contents x every length 0..%u x (3 sep x 2 max split; 3 from x 3 to replace; tokenize)", NMAXLEN),
+                              (uint64_t)4 * (NMAXLEN + 1),
+                              [mk, BOTH](uint64_t idx, Ctx &c) {
+                                  std::string subj = mk(idx);
+                                  bool nt = false;
+                                  for (const char *sep : VSEPS) {
+                                      check_split(c, subj, sep, 3, nt);
+                                      check_split(c, subj, sep, UINT64_MAX, nt);
+                                      for (const char *to : VTOS) check_replace(c, subj, sep, to, BOTH, nt);
+                                  }
+                                  check_tokenize(c, subj, 0);
+                                  if (nt) c.nontrivial();
+                              },
+                              [mk](uint64_t idx) {
+                                  std::string s = mk(idx);
+                                  return strf("s[%zu]=%s...", s.size(), vf::vis(s.substr(0, 12)).c_str());
+                              });
+        st.case_timeout_s = 5;
     }
 
     // ---- stages over whole UTF-8 characters (every string is valid UTF-8, so the const char* overloads, which
